@@ -62,7 +62,9 @@ void KrylovObserver::on_checkpoint(int kind, const spectra_verif::FacView& v)
     if (kind == CK_EXPAND) expands_since_init++;
     // pinned-tree known finding of the general (Arnoldi) solvers: basis orthonormality drifts over many
     // implicit restarts; no verdict there (declared, DESIGN.md sections 11.3 and 12)
-    if (general && (compress_since_init > 20 || (skip_after_expand && expands_since_init > 0)))
+    // ... and a general solver whose Krylov space is the whole space (ncv == n) ends every factorization with a
+    // residual that is pure rounding noise (KF-arnoldi-breakdown): no verdict for a full-dimension basis either
+    if (general && (compress_since_init > max_restarts || (skip_after_expand && expands_since_init > 0) || (kind != CK_EXPAND && v.m == v.n && v.k == v.m)))
     {
         skipped_known_regime++;
         return;
@@ -114,7 +116,9 @@ void KrylovObserver::on_checkpoint(int kind, const spectra_verif::FacView& v)
     for (long j = 0; j < k; j++)
         for (long i = 0; i < k; i++)
             gdev = std::max(gdev, std::hypot(Gr(i, j) - (i == j ? 1.0L : 0.0L), Gi(i, j)));
-    const ld ounit = (ld) std::max<long>(k, 4) * eps * (hasP ? R.kappaP : 1.0L) * (ld) std::sqrt((double) n);
+    // generalized shift modes: the basis is built through solves with A - sigma B
+    const ld kshift = (R.family == F_GSHIFTINV || R.family == F_GBUCK || R.family == F_GCAYLEY) ? std::max<ld>(1, R.kappaF) : 1.0L;
+    const ld ounit = (ld) std::max<long>(k, 4) * eps * (hasP ? R.kappaP : 1.0L) * kshift * (ld) std::sqrt((double) n);
     stats.max_orth = std::max(stats.max_orth, gdev / ounit);
     if (std::getenv("SIM_TRACE_KRYLOV")) std::printf("trace %s k=%ld |V'PV-I|=%.3Lg beta=%.3Lg\n", checkpoint_name(kind), k, gdev, (ld) v.beta);
     if (!(gdev <= C.C_vorth * ounit))
